@@ -21,7 +21,29 @@ NA = {
 PENDING_REASON = "claimed in DESIGN.md but the check is not built at this commit; not claimed until it is"
 
 # id -> (technique, level text, level note, design ref)
+_CODEC_NOTE = ("Trusted: Python integer semantics for + - * // % << >> & | as transcribed into sa/lin.py; the interpreter sa/absint.py "
+               "(path enumeration, guard refinement, loop summarisation). Resolutions are enumerated as trace partitions (-1..31), "
+               "everything else (face, segment, 56-bit position S, list contents) stays symbolic. Unmodelled code gives UNDECIDED, never an alarm.")
+
 CHECKS = {
+    "C05": (
+        "abstract interpretation over bit-field linear forms (custom ast interpreter)",
+        "serialize / get_resolution / deserialize are interpreted abstractly on the generic cell (face, segment, S symbolic, S a priori unbounded), one run per resolution. Per resolution the analysis decides: the fit check bounds S to exactly its admissible range, the fields are disjoint and the id lies in [1, 2**64), the marker scanner returns r independently of the data bits, the decoder recovers face/segment/S/resolution, re-encoding is the identity; face-table facts come from the import-time code of origin.py. All 2**56 positions are covered at once. A violated obligation names the construct and shows the two disagreeing forms (with a witness valuation when the forms are not syntactically comparable).",
+        _CODEC_NOTE,
+        "DESIGN.md section 3, C05",
+    ),
+    "C06": (
+        "abstract interpretation with loop summarisation (custom ast interpreter)",
+        "cell_to_children / cell_to_parent are interpreted on the generic valid cell for every resolution pair -1 <= a <= b <= 30 (496 pairs); the three nested loops are summarised into one family child(origin, segment, i). Decided per pair: count equals get_num_children, every child has resolution b and cell_to_parent(child, a) is exactly the parent form, the loop variables are recoverable from the decoded child (no repetition), for a >= 1 the children are consecutive level-b ids in ascending order; per resolution: parents keep face/segment, compose through every intermediate level, defaults are one level, out-of-order requests raise on every path.",
+        _CODEC_NOTE + " Relies on C05 for the reading of decoded children.",
+        "DESIGN.md section 3, C06",
+    ),
+    "C20": (
+        "constant propagation + size summaries compared on the finite resolution lattice",
+        "get_num_cells / get_num_children / cell_area are evaluated by the abstract interpreter (constant propagation) for every resolution and resolution pair and compared with the size summary of the code that enumerates cells (length of the summarised cell_to_children family), the expansion of the world cell, the product rule and strict monotonicity; cell_area's return expression is decomposed structurally (one module constant = 4*pi*R*R over get_num_cells(r)), R is compared with the WGS84 authalic radius derived in the checker, and exact representability of the counts bounds the rounding.",
+        _CODEC_NOTE + " IEEE-754 doubles for the folded constants; WGS84 a, 1/f typed into the checker.",
+        "DESIGN.md section 3, C20",
+    ),
     "C19": (
         "string-shape abstract interpretation (custom ast analysis)",
         "Abstract interpretation of the two functions of a5/core/hex.py over a string-shape domain (base, case, prefix, sign, padding, minimality, emptiness). The producer is evaluated on the abstract argument 'int in [0, 2**64)', the parser on 'hexadecimal numeral, either case, leading zeros'; the required shapes are compared per return path, so the verdict covers all 2**64 values at once without enumerating any. Unmodelled constructs give UNDECIDED (exit 0), never an alarm.",
